@@ -37,6 +37,8 @@ pub enum W {
     Recv = 11,
     StoreShared = 12,
     Verify = 13,
+    /// `Cache::load` (not part of the weight tables: chosen with probability `cache_p`/16)
+    CacheLoad = 14,
 }
 pub(crate) const ALLW: [W; NOPS] = [
     W::Load, W::LoadDrop, W::LoadFull, W::DropGuard, W::GuardInto, W::DropOwned, W::Store, W::Swap, W::Cas, W::Rcu, W::Send,
@@ -62,6 +64,8 @@ pub struct Profile {
     /// allow compare-and-swap with stale raw addresses and `current == new`
     pub cas_pool: bool,
     pub nested_rcu: bool,
+    /// probability (of 16) that an operation is a `Cache::load`
+    pub cache_p: u64,
 }
 
 pub fn profile(name: &str) -> Profile {
@@ -84,6 +88,7 @@ pub fn profile(name: &str) -> Profile {
         none_p: 1,
         cas_pool: false,
         nested_rcu: true,
+        cache_p: 0,
     };
     match name {
         "c01" | "c02" | "c10" => {}
@@ -117,6 +122,13 @@ pub fn profile(name: &str) -> Profile {
             p.mixed = [15, 15, 8, 14, 4, 8, 10, 12, 8, 6, 2, 2, 8, 3];
             p.writer = [2, 4, 2, 2, 1, 8, 22, 28, 10, 8, 0, 1, 12, 1];
         }
+        "c16" => {
+            p.cache_p = 6;
+            //          Ld LdD LdF DrG GIn DrO  St  Sw Cas Rcu Snd Rcv StS Ver
+            p.writer = [2, 4, 2, 2, 1, 8, 30, 22, 8, 6, 0, 0, 10, 1];
+            p.mixed = [8, 8, 4, 8, 2, 8, 16, 12, 6, 4, 0, 0, 8, 2];
+            p.none_p = 2;
+        }
         "free" => {
             p.max_threads = 8;
             p.min_threads = 3;
@@ -132,6 +144,15 @@ pub fn profile(name: &str) -> Profile {
 pub(crate) fn id_block() -> u64 {
     static NEXT: AtomicU64 = AtomicU64::new(1);
     NEXT.fetch_add(1, Relaxed) << 20
+}
+
+pub(crate) enum CacheKind<V: Val, S: StratExt<V>> {
+    Plain(arc_swap::cache::Cache<Cont<V, S>, V>),
+    Mapped(arc_swap::cache::MapCache<Cont<V, S>, V, fn(&V) -> &V>),
+}
+
+fn identity<V>(v: &V) -> &V {
+    v
 }
 
 pub(crate) struct Held<V: Val, S: StratExt<V>> {
@@ -222,6 +243,8 @@ pub(crate) struct Worker<V: Val, S: StratExt<V>> {
     pub(crate) budgets: std::cell::Cell<(u32, u32)>,
     /// steps of the last call
     pub(crate) last_steps: std::cell::Cell<u32>,
+    /// one cache per container (created on first use) and the address of the value it retains
+    pub(crate) caches: Vec<Option<(CacheKind<V, S>, usize)>>,
 }
 
 impl<V: Val, S: StratExt<V>> Worker<V, S> {
@@ -447,7 +470,78 @@ impl<V: Val, S: StratExt<V>> Worker<V, S> {
                     verify(h, "while held");
                 }
             }
+            W::CacheLoad => self.do_cache_load(),
         }
+    }
+
+    /// `Cache::load`: recorded as a read of the container. The value retained inside the cache is
+    /// an owner the harness cannot see; it is accounted by address (decremented before the call
+    /// that may release it, incremented after the call that retained it).
+    fn do_cache_load(&mut self) {
+        use arc_swap::cache::Access as CacheAccess;
+        let c = self.pick_cont();
+        while self.caches.len() < self.conts.len() {
+            self.caches.push(None);
+        }
+        if self.caches[c].is_none() {
+            let inv = self.stamp();
+            let cont = self.conts[c].clone();
+            let cache = self.call(true, || arc_swap::cache::Cache::new(cont));
+            let resp = self.stamp();
+            let mapped = self.rng.chance(1, 3);
+            let mut kind = if mapped { CacheKind::Mapped(cache.map(identity::<V> as fn(&V) -> &V)) } else { CacheKind::Plain(cache) };
+            // what it holds right after creation (no revalidation can be observed separately, so
+            // this first load is recorded over the whole window)
+            let (id, addr) = {
+                let v: &V = match &mut kind {
+                    CacheKind::Plain(ca) => ca.load(),
+                    CacheKind::Mapped(m) => m.load(),
+                };
+                (v.vid(), v.addr())
+            };
+            let resp2 = self.stamp();
+            V::note_owner_addr(addr, 1);
+            let _ = resp;
+            self.push_op(c, Kind::Load, 0, 0, id, addr as u64, inv, resp2);
+            self.caches[c] = Some((kind, addr));
+            *self.res.borrow_mut().paths.entry("cache.created").or_insert(0) += 1;
+            return;
+        }
+        let (mut kind, retained) = self.caches[c].take().unwrap();
+        V::note_owner_addr(retained, -1);
+        let inv = self.stamp();
+        let (id, addr) = self.call(true, || {
+            let v: &V = match &mut kind {
+                CacheKind::Plain(ca) => ca.load(),
+                CacheKind::Mapped(m) => m.load(),
+            };
+            (v.vid(), v.addr())
+        });
+        let resp = self.stamp();
+        V::note_owner_addr(addr, 1);
+        self.push_op(c, Kind::Load, 0, 0, id, addr as u64, inv, resp);
+        {
+            let mut res = self.res.borrow_mut();
+            *res.paths.entry("cache.loads").or_insert(0) += 1;
+            if addr != retained {
+                *res.paths.entry("cache.loads_that_observed_a_change").or_insert(0) += 1;
+            }
+            if matches!(kind, CacheKind::Mapped(_)) {
+                *res.paths.entry("cache.loads_mapped").or_insert(0) += 1;
+            }
+        }
+        // sometimes clone the cache and use the clone from now on (the original is dropped)
+        if self.rng.chance(1, 8) {
+            if let CacheKind::Plain(ca) = &kind {
+                let cl = ca.clone();
+                V::note_owner_addr(addr, 1);
+                let old = std::mem::replace(&mut kind, CacheKind::Plain(cl));
+                V::note_owner_addr(addr, -1);
+                drop(old);
+                *self.res.borrow_mut().paths.entry("cache.cloned").or_insert(0) += 1;
+            }
+        }
+        self.caches[c] = Some((kind, addr));
     }
 
     fn do_cas(&mut self) {
@@ -722,6 +816,8 @@ pub(crate) fn end_phase<V: Val, S: StratExt<V>>(mut w: Worker<V, S>, sh: &Arc<Sh
     order.extend(std::iter::repeat(0).take(w.guards.len()));
     order.extend(std::iter::repeat(1).take(w.owned.len()));
     order.extend(std::iter::repeat(2).take(w.conts.len()));
+    let mut caches: Vec<(CacheKind<V, S>, usize)> = w.caches.drain(..).flatten().collect();
+    order.extend(std::iter::repeat(3).take(caches.len()));
     for i in (1..order.len()).rev() {
         let j = w.rng.below(i as u64 + 1) as usize;
         order.swap(i, j);
@@ -736,6 +832,12 @@ pub(crate) fn end_phase<V: Val, S: StratExt<V>>(mut w: Worker<V, S>, sh: &Arc<Sh
             1 => {
                 let o = w.owned.pop().unwrap();
                 drop(disown(o));
+            }
+            3 => {
+                // a cache releases the value it retains (and possibly, as the last holder, the container)
+                let (kind, retained) = caches.pop().unwrap();
+                V::note_owner_addr(retained, -1);
+                w.call(false, || drop(kind));
             }
             _ => {
                 let c = w.conts.pop().unwrap();
@@ -868,9 +970,11 @@ where
                 last_path: std::cell::Cell::new(0),
                 budgets: std::cell::Cell::new((sh2.step_budget, sh2.step_budget)),
                 last_steps: std::cell::Cell::new(0),
+                caches: Vec::new(),
             };
+            let cache_p = sh2.profile.cache_p;
             for _ in 0..nops {
-                let op = ALLW[w.rng.weighted(&weights)];
+                let op = if cache_p > 0 && w.rng.below(16) < cache_p { W::CacheLoad } else { ALLW[w.rng.weighted(&weights)] };
                 w.do_op(op);
                 sched::step(hs::OP_GAP);
             }
@@ -1041,6 +1145,7 @@ pub(crate) fn analyze<V: Val, S: StratExt<V>>(
                     "c06" => "C06",
                     "c04" => "C04",
                     "c12" => "C12",
+                    "c16" => "C16",
                     _ => "C03",
                 };
                 let hist: Vec<String> = sorted.iter().map(|o| o.brief()).collect();
